@@ -376,7 +376,7 @@ end
 
 /-- the whole token sequence is one expression -/
 def parseE (ts : List Tok) : Option CExpr :=
-  match parseB (2 * ts.length + 2) 0 ts with
+  match parseB (8 * ts.length + 16) 0 ts with
   | some (e, []) => some e
   | _ => none
 
